@@ -304,6 +304,47 @@ def empty_item_stream(ctx, res):
                                     "requires a field / its validator rejects it", dict(case, validator_calls=len(calls)))
 
 
+def null_required_stream(ctx, res):
+    """a required field that also declares a default, and a tree / document that mentions its key with an explicit null: the load
+    must not return (a returned load means every required field has a value), at any depth and in items of configuration lists"""
+    import cincoconfig as cc
+    makers = [("int", lambda: cc.IntField(required=True, default=5)), ("string", lambda: cc.StringField(required=True, default="x")),
+              ("appmode", lambda: cc.ApplicationModeField(required=True, default="production")), ("bool", lambda: cc.BoolField(required=True, default=True)),
+              ("list", lambda: cc.ListField(cc.IntField(), required=True, default=lambda: [1])), ("callable", lambda: cc.IntField(required=True, default=lambda: 7))]
+    for name, mk in makers:
+        for depth in (0, 1, 3):
+            for in_item in (False, True):
+                for route in ("load_tree", "json", "yaml"):
+                    leaf = cc.Schema()
+                    leaf.x = mk()
+                    leaf.other = cc.IntField(default=1)
+                    s = cc.Schema()
+                    holder = s
+                    for lvl in range(depth):
+                        holder = getattr(holder, "lvl%d" % lvl)
+                    if in_item:
+                        holder.items = cc.ListField(leaf, default=lambda: [])
+                        tree = {"items": [{"other": 2}, {"x": None}]}
+                    else:
+                        holder.x = mk()
+                        tree = {"x": None}
+                    for lvl in reversed(range(depth)):
+                        tree = {"lvl%d" % lvl: tree}
+                    cfg = s()
+                    try:
+                        if route == "load_tree":
+                            cfg.load_tree(copy.deepcopy(tree))
+                        else:
+                            cfg.loads(cc.ConfigFormat.get(route).dumps(cfg, tree), format=route)
+                        returned = True
+                    except Exception:  # noqa
+                        returned = False
+                    case = {"stream": "null-required", "kind": name, "depth": depth, "in_list_item": in_item, "route": route}
+                    res.case(stable(case), kind="null-required:" + name)
+                    if returned:
+                        res.violate("C11:required-null-accepted", "a load returned although a required field was given an explicit null (the field has a declared default)", case)
+
+
 def run(ctx, n_quick=250, n_thorough=8000):
     res = Result()
     tmp, keypath = P.setup(ctx)
@@ -316,6 +357,7 @@ def run(ctx, n_quick=250, n_thorough=8000):
         pass
     guard(res, "C11", falsy_validator_stream, ctx, res, ctx.n(80, 2000))
     guard(res, "C11", empty_item_stream, ctx, res)
+    guard(res, "C11", null_required_stream, ctx, res)
     return res
 
 
